@@ -104,6 +104,7 @@ type Engine struct {
 	Concrete    map[string]int64 // when non-nil every nondet is fixed to this value (default 0)
 	trackExempt map[ObjID]bool
 	files       map[string]*SliceV
+	ndSeen      map[string]bool
 	sharedObjs  map[ObjID]bool // package-level variables and everything package initialisers created
 	MapOrder    func(n int) []int
 
@@ -160,7 +161,7 @@ func New(prog *ssa.Program, cfg Config) *Engine {
 		base: map[ObjID]Value{}, strTab: map[string]*SliceV{}, strOf: map[ObjID]string{},
 		globals: map[*ssa.Global]ObjID{}, inited: map[*ssa.Package]bool{},
 		infos: map[*ssa.Function]*fnInfo{}, nondetCount: map[string]int{},
-		ufCalls: map[string][]ufCall{}, sharedObjs: map[ObjID]bool{}, FuncsSeen: map[string]int{}, Stubs: map[string]int{},
+		ufCalls: map[string][]ufCall{}, sharedObjs: map[ObjID]bool{}, ndSeen: map[string]bool{}, FuncsSeen: map[string]int{}, Stubs: map[string]int{},
 	}
 	return e
 }
